@@ -1,3 +1,5 @@
+//go:build mcbuild
+
 // C10: stream.Pipe — FIFO per sender, nothing sent-before-close lost, no stuck call. Engine E2.
 package main
 
